@@ -19,6 +19,7 @@ META = {
              "C05_actuator_vel - for an actuator with affine gain and bias and no activation the derivative rule of mjd_actuator_vel (gain velocity coefficient times the CLAMPED control plus bias velocity coefficient; 0 when the clamped force sits at either forcerange limit) is the derivative of the applied force wherever it exists, for any forcerange flo < fhi (asymmetric, one-sided); tied on one-hinge models (optionally behind a 3-input PID actuator so that actuator index != control index). "
              "Implicit integrators, oracle with an independently MEASURED derivative: on mjgen models with re-randomised asymmetric/one-sided forceranges, ctrlranges, kv / velocity gains, gear signs, damping, disabled groups, and on custom models (multi-input PID actuators in front of limited ones, tendons across sibling branches and along chains, standalone free body), D = d qfrc/d qvel is measured by central finite differences of mj_forward (one-sided differences must agree, else the case is skipped as a kink) and both (M - hD)(v_new - v) = h(qfrc_smooth + qfrc_constraint) and qDeriv = D are checked row by row (implicitfast: passive + actuator part, full block for standalone free bodies). "
              "RK4 stage times: the one-joint RK4 cases are driven by an mjcb_control callback ctrl = c0 + c1 t + c2 t^2 (two thirds of the cases), and mj_step is compared with the textbook classical RK4 scheme (nodes 0, 1/2, 1/2, 1) computed independently and with the model rk4 whose stage times are t + (row sum of the regenerated tableau) h; the translator also pins the node-coefficient loop of mj_RungeKutta (j = 0 .. i-1) and the assignment d->time = T[i-1]. "
+             "Fluid media: custom models get a viscous medium (viscosity > 0, optional wind) and bodies with 2-3 geoms of mixed fluidshape (ellipsoid / none in every order, body 0 always [ellipsoid, none]), mjgen models a dense/viscous medium with the inertia-box model, under the same measured-derivative clauses; NOT covered: density > 0 together with ellipsoid-fluid geoms (on HEAD qDeriv of capsule / cylinder ellipsoid-fluid geoms on non-free bodies differs from the measured derivative by ~1e-2, repro build/scratch/C05/repro_ellipsoid_density.c, reported to the coordinator). "
              "Option combinations: the same step clauses run under extra disableflags (damper, eulerdamp, spring, gravity, actuation, clampctrl, constraint, frictionloss, limit, warmstart, refsafe and random subsets), and for the Euler integrator the clause is (M + h B)(v_new - v) = h(qfrc_smooth + qfrc_constraint) with B the MEASURED joint damping d qfrc_damper_i/d qvel_i (zero when the damper flag removes damping from the dynamics) if eulerdamp is enabled and B = 0 (v_new = v + h qacc) otherwise. "
              "This found two defects of /repo: the velocity-gain term used the unclamped control (fixed in /repo e72d433e4, the revert is kept as a mutant) and derivative terms between dofs that are not on one kinematic chain (cross-branch tendon damping / tendon actuators) are dropped by the sparsity of qDeriv (KNOWN finding C05-F1, emitted only for rows whose missing column is coupled by such a tendon according to input facts of the model). "
              "Not covered: IEEE rounding (all theorems are over R); the DC-motor branch of mj_nextActivation, wrapPeriod/SO3 re-anchoring of integrator activations, sleep filtering, history buffers, plugins; that mj_RungeKutta's loop equals the model's rk4 is tied only on the one-joint system; implicit integrators only through C05_implicit_partial and the oracle."),
